@@ -168,7 +168,8 @@ impl<'a, 'b> Mul<&'b Value> for &'a Value {
     fn mul(self, other: &Value) -> Result<Value, String> {
         match (self, other) {
             (&Value::Number(ref left), &Value::Number(ref right)) => (left * right)
-                .ok_or_else(|| "Bug: Mul should not fail".to_string())
+                .filter(|res| res.unit.powers_in_range())
+                .ok_or_else(|| "Unit exponent is too large".to_string())
                 .map(Value::Number),
             (&Value::Number(ref co), &Value::Substance(ref sub))
             | (&Value::Substance(ref sub), &Value::Number(ref co)) => {
@@ -186,7 +187,13 @@ impl<'a, 'b> Div<&'b Value> for &'a Value {
         match (self, other) {
             (&Value::Number(ref left), &Value::Number(ref right)) => (left / right)
                 .ok_or_else(|| "Division by zero".to_string())
-                .map(Value::Number),
+                .and_then(|res| {
+                    if res.unit.powers_in_range() {
+                        Ok(Value::Number(res))
+                    } else {
+                        Err("Unit exponent is too large".to_string())
+                    }
+                }),
             (&Value::Substance(ref sub), &Value::Number(ref co)) => {
                 (sub / co).map(Value::Substance)
             }
